@@ -653,6 +653,13 @@ func checkRootsAs(r *Report, m *spModel, sr *sigRoles, rule string) {
 	}
 	// delegates: a module function whose returned certificates come from other module functions (a selector that
 	// picks one of the configured sources) is looked through; the functions it delegates to are the sources
+	// the configuration modes are alternatives: where each source is consulted, for the exclusivity obligation below
+	type srcUse struct {
+		kind string
+		fn   *ssa.Function
+		call *ssa.Call
+	}
+	var uses []srcUse
 	var judge func(fn *ssa.Function, lf ssa.Value, at ssa.Instruction, depth int)
 	judge = func(fn *ssa.Function, lf ssa.Value, at ssa.Instruction, depth int) {
 		fc := a.Ctx(fn)
@@ -723,6 +730,7 @@ func checkRootsAs(r *Report, m *spModel, sr *sigRoles, rule string) {
 				}
 			}
 			kind := classifyCertSource(p, src)
+			uses = append(uses, srcUse{kind, fn, call})
 			switch kind {
 			case "metadata":
 				r.OK(rule, cons, p.InstrPos(call), "IdP metadata key descriptors ("+shortFn(src)+")")
@@ -783,6 +791,27 @@ func checkRootsAs(r *Report, m *spModel, sr *sigRoles, rule string) {
 		}
 		if n == 0 {
 			r.Undecided(rule, p.FnName(v)+": Roots of the certificate store", p.Pos(v.Pos()), "no store to MemoryX509CertificateStore.Roots found")
+		}
+	}
+	checkConfigReadOnly(r, p, rule, "saml", "ServiceProvider")
+	// the three trust configurations (metadata keys, fingerprint, pinned certificate) are alternatives: no path consults
+	// two different sources, so that a pinned (or fingerprinted) deployment trusts that certificate only
+	done := map[[2]*ssa.Call]bool{}
+	for i, u1 := range uses {
+		for _, u2 := range uses[i+1:] {
+			if u1.kind == u2.kind || u1.fn != u2.fn || u1.call == u2.call || done[[2]*ssa.Call{u1.call, u2.call}] {
+				continue
+			}
+			done[[2]*ssa.Call{u1.call, u2.call}] = true
+			fc := a.Ctx(u1.fn)
+			fc.ensureConds()
+			both := a.B.And(fc.Cond(u1.call.Block()), fc.Cond(u2.call.Block()))
+			cons := fmt.Sprintf("%s: the %s source and the %s source of trusted roots are alternatives", p.FnName(u1.fn), u1.kind, u2.kind)
+			if both == a.B.False {
+				r.OK(rule, cons, p.InstrPos(u2.call), "their conditions exclude each other")
+			} else {
+				r.Bad(rule, cons, p.InstrPos(u2.call), "both sources are consulted on one path (e.g. under "+firstCube(a.B, both)+"): a deployment that pins a certificate (or a fingerprint) then also trusts every other source's certificates")
+			}
 		}
 	}
 }
@@ -1417,6 +1446,13 @@ func moduleWrittenGlobals(p *Prog) map[*ssa.Global]string {
 // variable that the library itself modifies at run time (a cache, a registry): the trusted roots are derived, on every
 // validation, from what the SP configuration holds at that moment.
 func checkNoProcessState(r *Report, p *Prog, fn *ssa.Function, rule string) {
+	checkNoProcessStateFor(r, p, fn, rule, "trusted roots do not depend on state the library keeps between calls",
+		"the trust decision consults", "a certificate that was valid for an earlier message stays trusted after the configuration it came from has changed")
+}
+
+// checkNoProcessStateFor: fn and the helpers it is split into read no package-level variable that library code modifies
+// at run time (a cache, a registry): their answer is a function of the configuration they are handed now.
+func checkNoProcessStateFor(r *Report, p *Prog, fn *ssa.Function, rule, what, verb, consequence string) {
 	written := moduleWrittenGlobals(p)
 	for _, f := range helperRegion(p, fn, 2) {
 		for _, b := range f.Blocks {
@@ -1430,13 +1466,82 @@ func checkNoProcessState(r *Report, p *Prog, fn *ssa.Function, rule string) {
 						continue
 					}
 					if at, isW := written[g]; isW {
-						r.Bad(rule, fmt.Sprintf("%s: trusted roots do not depend on state the library keeps between calls", p.FnName(f)), p.InstrPos(in),
-							fmt.Sprintf("the trust decision consults the package-level variable %s, which the library modifies at run time (%s): a certificate that was valid for an earlier message stays trusted after the configuration it came from has changed", g.Name(), at))
+						r.Bad(rule, fmt.Sprintf("%s: %s", p.FnName(f), what), p.InstrPos(in),
+							fmt.Sprintf("%s the package-level variable %s, which the library modifies at run time (%s): %s", verb, g.Name(), at, consequence))
 						return
 					}
 				}
 			}
 		}
 	}
-	r.OK(rule, fmt.Sprintf("%s: trusted roots do not depend on state the library keeps between calls", p.FnName(fn)), p.Pos(fn.Pos()), "no library-written package-level variable is read on the trust path")
+	r.OK(rule, fmt.Sprintf("%s: %s", p.FnName(fn), what), p.Pos(fn.Pos()), "no library-written package-level variable is read on this path")
+}
+
+// checkConfigReadOnly: the application's configuration objects (the named struct types given) are inputs: library code
+// stores into none of their fields (directly, by map update, by a mutating sync/atomic method on a field), except on an
+// object a constructor is still building (a fresh local). A field the library writes at run time is a memo of an earlier
+// configuration: what was derived from the key, certificate, metadata or clock then is used after the application has
+// replaced them.
+func checkConfigReadOnly(r *Report, p *Prog, rule string, pkg string, typeNames ...string) {
+	mutating := map[string]bool{"Store": true, "LoadOrStore": true, "LoadAndDelete": true, "Delete": true, "Swap": true, "CompareAndSwap": true, "CompareAndDelete": true, "Put": true, "Clear": true, "Do": true}
+	path := modPath
+	if pkg != "" && pkg != "saml" {
+		path = modPath + "/" + pkg
+	}
+	// the config object a written address belongs to (type name), or ""
+	owner := func(v ssa.Value) (string, ssa.Value) {
+		for i := 0; i < 8; i++ {
+			switch x := v.(type) {
+			case *ssa.FieldAddr:
+				for _, tn := range typeNames {
+					if typeIs(x.X.Type(), path, tn) {
+						return tn + "." + fieldName(x.X.Type(), x.Field), x.X
+					}
+				}
+				v = x.X
+			case *ssa.IndexAddr:
+				v = x.X
+			case *ssa.UnOp:
+				v = x.X
+			default:
+				return "", nil
+			}
+		}
+		return "", nil
+	}
+	first := map[string]string{}
+	note := func(v ssa.Value, in ssa.Instruction) {
+		if f, obj := owner(v); f != "" && !isFreshLocal(obj) {
+			tn := strings.SplitN(f, ".", 2)[0]
+			if first[tn] == "" {
+				first[tn] = f + " at " + p.InstrPos(in)
+			}
+		}
+	}
+	for _, fn := range p.modFns {
+		if !p.InLibrary(fn) || fn.Name() == "init" || strings.HasPrefix(fn.Name(), "init#") {
+			continue
+		}
+		for _, b := range fn.Blocks {
+			for _, in := range b.Instrs {
+				switch x := in.(type) {
+				case *ssa.Store:
+					note(x.Addr, in)
+				case *ssa.MapUpdate:
+					note(x.Map, in)
+				case *ssa.Call:
+					if sc := x.Call.StaticCallee(); sc != nil && sc.Signature.Recv() != nil && mutating[sc.Name()] && len(x.Call.Args) > 0 {
+						rt := types.TypeString(sc.Signature.Recv().Type(), nil)
+						if strings.HasPrefix(rt, "*sync.") || strings.HasPrefix(rt, "*sync/atomic.") {
+							note(x.Call.Args[0], in)
+						}
+					}
+				}
+			}
+		}
+	}
+	for _, tn := range typeNames {
+		cons := fmt.Sprintf("%s.%s: configuration is read, never written, by the library", pkg, tn)
+		r.Check(first[tn] == "", rule, cons, "-", "no library store into a field of the type outside its constructors", "the library stores into "+first[tn]+": the object remembers something derived from an earlier state of its own configuration (key, certificate, metadata), which keeps being used after the application changes them")
+	}
 }
